@@ -237,8 +237,11 @@ Inductive res :=
 | VBytes (b : bytes)          (* read *)
 | VInto (b : bytes)           (* readinto: b[:k] = data, returns k = len data *)
 | VInt (z : Z)                (* seek / tell / write *)
-| VNone                       (* close *)
+| VNone                       (* close / flush *)
+| VBool (b : bool)            (* closed / readable() / writable() / seekable() *)
 | VExc (e : exn).
+
+Inductive query := QClosed | QReadable | QWritable | QSeekable.
 
 (* read(size) *)
 Definition do_read (fuel : nat) (n : Z) (st : rstate) : option (res * rstate) :=
@@ -303,8 +306,28 @@ Definition do_close (st : rstate) : res * rstate :=
 Definition do_write_r (st : rstate) : res * rstate :=
   match check_can_write_r st with Some e => (VExc e, st) | None => (VNone, st) end.
 
+(* the `closed` property, readable(), writable(), seekable() (underlying file seekable) *)
+Definition do_query (q : query) (st : rstate) : res * rstate :=
+  match q with
+  | QClosed => (VBool (match mode st with MClosed => true | _ => false end), st)
+  | QReadable =>
+    match check_not_closed st with Some e => (VExc e, st) | None => (VBool (is_reading (mode st)), st) end
+  | QWritable =>
+    match check_not_closed st with
+    | Some e => (VExc e, st)
+    | None => (VBool (match mode st with MWrite => true | _ => false end), st)
+    end
+  | QSeekable =>   (* return self.readable() and self._fp.seekable() *)
+    match check_not_closed st with Some e => (VExc e, st) | None => (VBool (is_reading (mode st)), st) end
+  end.
+
+(* flush() is io.IOBase.flush (C): it tests the private __IOBase_closed flag, which BinaryZlibFile.close()
+   never sets (it does not call IOBase.close), so flush() returns None even on a closed file *)
+Definition do_flush (st : rstate) : res * rstate := (VNone, st).
+
 Inductive op :=
-| ORead (n : Z) | OReadinto (n : Z) | OSeek (o w : Z) | OTell | OClose | OWrite.
+| ORead (n : Z) | OReadinto (n : Z) | OSeek (o w : Z) | OTell | OClose | OWrite
+| OQuery (q : query) | OFlush.
 
 Definition step (fuel : nat) (file : list raw) (o : op) (st : rstate) : option (res * rstate) :=
   match o with
@@ -314,6 +337,8 @@ Definition step (fuel : nat) (file : list raw) (o : op) (st : rstate) : option (
   | OTell => Some (do_tell st)
   | OClose => Some (do_close st)
   | OWrite => Some (do_write_r st)
+  | OQuery q => Some (do_query q st)
+  | OFlush => Some (do_flush st)
   end.
 
 (* run a history; None as soon as one operation runs out of fuel *)
@@ -359,6 +384,8 @@ Definition ref_step (D : bytes) (o : op) (s : refst) : option (res * refst) :=
   if rclosed s then
     match o with
     | OClose => Some (VNone, s)
+    | OQuery QClosed => Some (VBool true, s)
+    | OFlush => None      (* io.BytesIO raises ValueError, BinaryZlibFile returns None: outside the property *)
     | _ => Some (VExc ValueError, s)
     end
   else
@@ -380,6 +407,11 @@ Definition ref_step (D : bytes) (o : op) (s : refst) : option (res * refst) :=
   | OTell => Some (VInt (rpos s), s)
   | OClose => Some (VNone, mkRef (rpos s) true)
   | OWrite => Some (VExc UnsupportedOperation, s)
+  | OQuery QClosed => Some (VBool false, s)
+  | OQuery QReadable => Some (VBool true, s)
+  | OQuery QWritable => Some (VBool false, s)
+  | OQuery QSeekable => Some (VBool true, s)
+  | OFlush => Some (VNone, s)
   end.
 
 Fixpoint ref_run (D : bytes) (ops : list op) (s : refst) : option (list res * refst) :=
@@ -397,6 +429,41 @@ Fixpoint ref_run (D : bytes) (ops : list op) (s : refst) : option (list res * re
   end.
 
 Definition ref_init : refst := mkRef 0 false.
+
+(* ------------------------------------------------------------------ readline *)
+(* BinaryZlibFile has no readline/peek of its own: readline(limit) is io.IOBase.readline (C), which without
+   peek() does   while limit < 0 or len(buffer) < limit: b = self.read(1); if not b: break;
+                 buffer += b; if buffer[-1] == 10: break
+   The loop is bounded by the line length, not by the number of raw blocks: own fuel K. *)
+Definition is_nl (x : Z) : bool := x =? 10.
+
+Fixpoint readline_loop (K F : nat) (limit : Z) (acc : bytes) (st : rstate) : option (res * rstate) :=
+  match K with
+  | O => None
+  | S k =>
+    if (0 <=? limit) && (limit <=? len acc) then Some (VBytes acc, st)
+    else match do_read fill_buffer F 1 st with
+         | None => None
+         | Some (VBytes b, st1) =>
+           match b with
+           | [] => Some (VBytes acc, st1)
+           | _ => if is_nl (last b 0) then Some (VBytes (acc ++ b), st1)
+                  else readline_loop k F limit (acc ++ b) st1
+           end
+         | Some (r, st1) => Some (r, st1)        (* the exception of read() propagates *)
+         end
+  end.
+Definition do_readline (K F : nat) (limit : Z) (st : rstate) : option (res * rstate) :=
+  readline_loop K F limit [] st.
+
+(* reference: io.BytesIO.readline on the rest R of the stream *)
+Fixpoint take_line (l : bytes) : bytes :=
+  match l with
+  | [] => []
+  | x :: t => if is_nl x then [x] else x :: take_line t
+  end.
+Definition ref_readline (R : bytes) (limit : Z) : bytes :=
+  if limit <? 0 then take_line R else zfirstn limit (take_line R).
 
 (* ------------------------------------------------------------------ truncation *)
 Fixpoint is_prefix (p l : bytes) : bool :=
@@ -433,7 +500,7 @@ Definition w_check_can_read (st : wstate) : option exn :=
   if is_reading (wmode st) then None
   else match w_check_not_closed st with Some e => Some e | None => Some UnsupportedOperation end.
 
-Inductive wop := WWrite (d : bytes) | WTell | WClose | WRead | WSeek.
+Inductive wop := WWrite (d : bytes) | WTell | WClose | WRead | WSeek | WQuery (q : query) | WFlush.
 
 Definition wstep (o : wop) (st : wstate) : res * wstate :=
   match o with
@@ -452,6 +519,15 @@ Definition wstep (o : wop) (st : wstate) : res * wstate :=
     end
   | WRead => match w_check_can_read st with Some e => (VExc e, st) | None => (VNone, st) end
   | WSeek => match w_check_can_read st with Some e => (VExc e, st) | None => (VNone, st) end
+  | WQuery QClosed => (VBool (match wmode st with MClosed => true | _ => false end), st)
+  | WQuery QWritable =>
+    match w_check_not_closed st with
+    | Some e => (VExc e, st)
+    | None => (VBool (match wmode st with MWrite => true | _ => false end), st)
+    end
+  | WQuery _ =>     (* readable(); seekable() = readable() and ... *)
+    match w_check_not_closed st with Some e => (VExc e, st) | None => (VBool (is_reading (wmode st)), st) end
+  | WFlush => (VNone, st)   (* IOBase.flush: nothing is flushed, never raises (see do_flush) *)
   end.
 
 Fixpoint wrun (ops : list wop) (st : wstate) : list res * wstate :=
@@ -490,6 +566,14 @@ Definition read_bytes (fuel : nat) (sz : Z) (f : F) : option (result bytes * F) 
   | Some (d, f') => Some (if len d =? sz then Ok d else Raise ValueError, f')
   end.
 End ReadBytes.
+
+(* BinaryZlibFile.read as the fp.read of _read_bytes (an exception or out-of-fuel read is rendered as b'':
+   neither happens on an open reader with enough fuel -- C13) *)
+Definition zread (F : nat) (st : rstate) (n : Z) : rstate * bytes :=
+  match do_read fill_buffer F n st with
+  | Some (VBytes d, st') => (st', d)
+  | _ => (st, [])
+  end.
 
 (* a file object that returns short reads: remaining data + the cap of each successive read
    (caps exhausted: reads are served in full) *)
@@ -537,6 +621,7 @@ Definition show_res (r : res) : Z * Z * Z :=
   | VInto b => let '(s, n) := summ b in (4, s, n)
   | VInt z => (1, z, 0)
   | VNone => (2, 0, 0)
+  | VBool b => (5, if b then 1 else 0, 0)
   | VExc e => (3, exn_code e, 0)
   end.
 Definition show_state (st : rstate) : Z * Z * Z * Z * Z :=
